@@ -287,7 +287,7 @@ def run(res):
                     if l and not l.startswith("#"):
                         cases.append(Case(vlib.harness(exe, ["replay", l]).strip()))
     ncorpus = len(cases)
-    args = ["run", "-seed", str(res.seed), "-n", "500" if quick else "4000", "-groups", "60" if quick else "500", "-len", "40" if quick else "70"]
+    args = ["run", "-seed", str(res.seed), "-n", "500" if quick else "4000", "-groups", "60" if quick else "500", "-len", "40" if quick else "70", "-exhaustive", "2" if quick else "4"]
     cases += [Case(l) for l in vlib.harness(exe, args).splitlines() if l.strip()]
     bad, hyps = eval_cases(cases, "C19") if pr["runners_ok"] else (None, [None] * len(cases))
     # judge every implementation trace
@@ -322,9 +322,9 @@ def run(res):
     res.cov["rule"] = ("API-level differential runs of the real queue.Queue + real msgstorage.MsgStorage (in-memory engine with badger iteration semantics, explicit "
                        "loader turns and persist ticks) against the Coq model (vm_compute), output and (swapped,lastStored,lastMem,queueLength,ring length) compared after "
                        "EVERY label, ring and store key sets at the end; random schedules (ticks/loader turns anywhere, limits 1,2,3,4,5,8,1000, shard sizes 1..4, "
-                       "durable and not, persistent/transient mixes, requeue/ack/purge) and 'friendly' groups: one client script under 8 (shardSize,limit) pairs + limit 1; "
-                       "non-trivial = the run overflowed to disk (swappedToDisk was set at some point); distinct = distinct case lines")
-    res.cov["generator_distribution"] = {"corpus": ncorpus, "random-schedule": sum(1 for c in cases[ncorpus:] if not c.group),
+                       "durable and not, persistent/transient mixes, requeue/ack/purge), bounded-exhaustive label sequences (after three pushes under limit 2: every sequence up to length %s over {push transient, push persistent, pop, loader turn, tick P, tick T, requeue, purge}, durable and not) and 'friendly' groups: one client script under 8 (shardSize,limit) pairs + limit 1; "
+                       "non-trivial = the run overflowed to disk (swappedToDisk was set at some point); distinct = distinct case lines" % ("2" if quick else "4"))
+    res.cov["generator_distribution"] = {"corpus": ncorpus, "random-schedule-and-bounded-exhaustive": sum(1 for c in cases[ncorpus:] if not c.group),
                                          "friendly-group-members": sum(1 for c in cases if c.group), "groups": len(groups),
                                          "overflowed": overflowed, "satisfy-hypotheses-and-overflow": hyp_and_overflow,
                                          "satisfy-hypotheses": sum(1 for h in hyps if h),
